@@ -627,12 +627,35 @@ def check_C09(ctx):
 # ======================================================================
 # C15 primitives and tables, C03 engines bit-identical
 
+def table_digests(ctx, trace):
+    """Appends to `trace` one `tabledig` event per CPU affinity: the tables as built by a fresh process that sees 1, 3, 5, 6, 7,
+    12 CPUs must equal those of the unrestricted process (validated entry by entry in the same trace)."""
+    import shutil as _sh
+    tmp = ctx.path("tabledig.ndjson")
+    rc, info, out = harness(["prims", "--family", "tabledig", "--out", tmp, "--seed", ctx.seed])
+    lines = [open(tmp).read().strip()]
+    base = json.dumps(json.loads(lines[0])["digs"], separators=(",", ":"))
+    if _sh.which("taskset"):
+        ncpu = os.cpu_count() or 1
+        for n in [c for c in (1, 3, 5, 6, 7, 12) if c < ncpu]:
+            rc, o, dt = sh(["taskset", "-c", "0-%d" % (n - 1), BIN, "prims", "--family", "tabledig", "--out", tmp, "--seed", str(ctx.seed), "--base", base], cwd=VERIF, timeout=600)
+            if rc != 0:
+                raise ToolError("tabledig under taskset failed rc=%d: %s" % (rc, o[-500:]))
+            lines.append(open(tmp).read().strip())
+    with open(trace, "a") as f:
+        f.write("\n".join(lines) + "\n")
+    ctx.extra["table_digests_cpu_counts"] = [json.loads(l)["cpus"] for l in lines]
+    return len(lines)
+
+
 def prim_trace(ctx, fams, parts=4, what="primitive / table event", engines=None):
     trace = ctx.path("prims_%s.ndjson" % fams.replace(",", "_"))
     args = ["prims", "--family", fams, "--out", trace, "--seed", ctx.seed, "--tier", ctx.tier]
     if engines:
         args += ["--engines", ",".join(engines)]
     rc, info, out = harness(args)
+    if "tables" in fams.split(","):
+        info["events"] += table_digests(ctx, trace)
     ctx.evaluations += info["events"]
     r = validate_star(ctx, "Trace_Prim", "Trace_Prim.cfg", trace, parts=parts, what=what)
     ctx.distinct += r["events"]
